@@ -4,7 +4,7 @@
 ids="$@"; [ -z "$ids" ] && ids=$(/venv/bin/python -c "import json;print(' '.join(json.load(open('/verif/tools/claimed.json'))))")
 mkdir -p /verif/coqchk
 cd /verif/coq
-run() { p=$1; ( echo "# coqchk -o -silent -Q . XV XV.Props.$p   ($(date -u +%FT%TZ), $(coqchk --version 2>/dev/null | head -1))"; timeout 3000 coqchk -o -silent -Q . XV XV.Props.$p 2>&1 | tail -25; echo "exit=$?" ) > /verif/coqchk/$p.txt; }
+run() { p=$1; ( echo "# coqchk -o -silent -Q . XV XV.Props.$p   ($(date -u +%FT%TZ), $(coqchk --version 2>/dev/null | head -1))"; timeout 3000 coqchk -o -silent -Q . XV XV.Props.$p 2>&1 | tail -120; echo "exit=$?" ) > /verif/coqchk/$p.txt; }
 export -f run
 printf "%s\n" $ids | xargs -P 4 -I{} bash -c 'run {}'
 grep -L "Axioms: <none>" /verif/coqchk/*.txt | sed 's/^/has axioms or failed: /'
